@@ -471,6 +471,22 @@ func (x *Exec) loopHeader(f *Frame, st *State, b *ssa.BasicBlock, prev *ssa.Basi
 				}
 			case ssa.CallInstruction:
 				cc := in.Common()
+				// a closure called in the loop (directly, or handed to a callee) may write the variables it captured:
+				// those cells are loop-carried state too
+				for _, cand := range append([]ssa.Value{cc.Value}, cc.Args...) {
+					if cand == nil {
+						continue
+					}
+					if _, isSig := cand.Type().Underlying().(*types.Signature); !isSig {
+						continue
+					}
+					for g := f; g != nil; g = g.parent {
+						if cv, ok := g.regs[cand].(*ClosureVal); ok {
+							x.havocCaptured(st, cv, map[*ssa.Function]bool{})
+							break
+						}
+					}
+				}
 				for _, a := range cc.Args {
 					if _, ok := a.Type().Underlying().(*types.Pointer); ok {
 						x.havocTarget(f, st, a)
@@ -819,4 +835,122 @@ func localNamesOf(fn *ssa.Function) map[string]types.Type {
 		}
 	}
 	return out
+}
+
+// closureWrites: indices of the free variables of fn that fn (or a closure it creates, or a callee it hands them to)
+// may write through.
+func closureWrites(fn *ssa.Function) map[int]bool {
+	idx := map[ssa.Value]int{}
+	for i, fv := range fn.FreeVars {
+		idx[fv] = i
+	}
+	root := func(v ssa.Value) (int, bool) {
+		for d := 0; d < 10; d++ {
+			switch t := v.(type) {
+			case *ssa.FreeVar:
+				i, ok := idx[t]
+				return i, ok
+			case *ssa.FieldAddr:
+				v = t.X
+			case *ssa.IndexAddr:
+				v = t.X
+			case *ssa.UnOp:
+				v = t.X
+			case *ssa.Slice:
+				v = t.X
+			default:
+				return 0, false
+			}
+		}
+		return 0, false
+	}
+	w := map[int]bool{}
+	for _, b := range fn.Blocks {
+		for _, ins := range b.Instrs {
+			switch in := ins.(type) {
+			case *ssa.Store:
+				if i, ok := root(in.Addr); ok {
+					w[i] = true
+				}
+			case *ssa.MapUpdate:
+				if i, ok := root(in.Map); ok {
+					w[i] = true
+				}
+			case *ssa.MakeClosure:
+				for _, bnd := range in.Bindings {
+					if i, ok := root(bnd); ok {
+						w[i] = true
+					}
+				}
+			case ssa.CallInstruction:
+				for _, a := range in.Common().Args {
+					switch a.Type().Underlying().(type) {
+					case *types.Pointer, *types.Map, *types.Slice:
+						if i, ok := root(a); ok {
+							if _, isByteSlice := a.Type().Underlying().(*types.Slice); isByteSlice {
+								if bs, ok := a.Type().Underlying().(*types.Slice).Elem().Underlying().(*types.Basic); ok && bs.Kind() == types.Byte {
+									continue
+								}
+							}
+							// append(s, ...) does not write through s's cell
+							if bi, isB := in.Common().Value.(*ssa.Builtin); isB && (bi.Name() == "append" || bi.Name() == "len" || bi.Name() == "cap" || bi.Name() == "copy") {
+								continue
+							}
+							w[i] = true
+						}
+					}
+				}
+			}
+		}
+	}
+	return w
+}
+
+// havocCaptured: the captured variables a closure may write become unknown (loop cut).
+func (x *Exec) havocCaptured(st *State, cv *ClosureVal, seen map[*ssa.Function]bool) {
+	if cv == nil || cv.Fn == nil || seen[cv.Fn] {
+		return
+	}
+	seen[cv.Fn] = true
+	w := closureWrites(cv.Fn)
+	for i, b := range cv.Bindings {
+		if inner, ok := b.(*ClosureVal); ok {
+			x.havocCaptured(st, inner, seen)
+			continue
+		}
+		if !w[i] {
+			continue
+		}
+		x.havocCell(st, b, 0)
+	}
+}
+
+func (x *Exec) havocCell(st *State, b Val, depth int) {
+	if depth > 3 {
+		return
+	}
+	switch pv := b.(type) {
+	case *MapRef:
+		if cur, ok := st.mem[pv.Obj].(*Term); ok {
+			st.mem[pv.Obj] = x.freshTerm("loopmap", cur.Sort)
+		}
+	case *PtrVal:
+		if _, isG := x.prog.globalObjs[pv.Obj]; isG {
+			return
+		}
+		switch c := st.mem[pv.Obj].(type) {
+		case *Term:
+			nv := x.freshTerm("loopcap_"+pv.Obj.name, c.Sort)
+			st.assume(TypeInv(nv, pv.Obj.typ, 0))
+			st.mem[pv.Obj] = nv
+		case *MapRef, *PtrVal:
+			x.havocCell(st, c, depth+1)
+		case *NilPtr:
+			if srt := SortOf(pv.Obj.typ); srt != nil {
+				nv := x.freshTerm("loopcap_"+pv.Obj.name, srt)
+				st.assume(TypeInv(nv, pv.Obj.typ, 0))
+				st.mem[pv.Obj] = nv
+			}
+		}
+	}
 }
